@@ -17,6 +17,7 @@ package checks
 
 import (
 	"fmt"
+	"strings"
 
 	"github.com/talostrading/sonic/codec/websocket"
 	"verifmc/engine"
@@ -327,12 +328,18 @@ func C16(tier string) *engine.Report {
 	var tot engine.DFSTotals
 	d := c16DFS(tier)
 	tot.Add(d.Run(), rep)
+	// "no trailing bytes left over from earlier frames" also across sessions: a second session on the same Stream
+	// (this in-memory driver never goes through the handshake, which is what resets the write side)
+	tot.Add(c18ResumedDFS(tier).Run(), rep)
 	tot.Fill(rep, "all sequences of <=3 operations from the write menu (Write/AsyncWrite x 8 size classes, WriteFrame/AsyncWriteFrame with payload / SetPayload(nil) / no SetPayload, automatic Pong, Close/AsyncClose, automatic Close reply) x 3 transport behaviours, with a deferred transport write optionally left in flight while the next asynchronous operation starts; "+
-		"the complete outbound byte stream is parsed by an independent parser; non-trivial = more than one operation or a partial/deferred transport", d.MaxDeviations)
+		"the complete outbound byte stream is parsed by an independent parser; non-trivial = more than one operation or a partial/deferred transport; plus, over real TCP, the resumed-session family of the handshake driver (the server of a second session on the same Stream receives exactly the first message written)", d.MaxDeviations)
 	return rep
 }
 
 func C16Replay(v engine.Violation, log func(string)) *engine.Violation {
+	if strings.HasPrefix(v.Config, "resumed-session@") {
+		return c18ResumedDFS(v.Config[16:]).ReplayChoices(v.Choices)
+	}
 	tier := "quick"
 	if len(v.Config) > 7 {
 		tier = v.Config[7:]
